@@ -1,6 +1,19 @@
 """Registry of claimed checks (drives tools/mkmanifest.py)."""
 
 REGISTRY = {
+    "C11": {
+        "text": "JSON-like Python values (boundary numbers incl. NaN, infinities, -0.0, 2^53 neighbours, 2^70; strings incl. NUL and non-BMP; empty containers; int/float/bool/None/tuple keys; shared sub-objects; nesting depth 60; seeded random structures) go through set/get/eval(name) and are compared with the stated mapping under typed deep equality; every returned container and the object passed to set is then mutated and the value read again (aliasing monitor) and container identities of successive results must be disjoint. The same space written as script literals is evaluated and converted. Argument vectors of length 0-6 over every JS value kind reach an exposed callable through six call forms (plain, method, call, apply, bind, nested) and are recorded by order, count and typed value; return values of every Python kind are inspected from the script side. An icontract postcondition on the real Context._to_python requires JSON-like output.",
+        "design_ref": "DESIGN.md 3/C11",
+        "note": "Python-side oracles only. Tuples/bytes/sets are documented as unsupported and judged only for 'no exception, no host object'. Cyclic inputs are out of scope (conversion is recursive by design).",
+        "technique": "boundary monitors: typed round-trip oracle + aliasing (mutation/identity) monitor + argument recorder in exposed callables + icontract postcondition on Context._to_python",
+    },
+    "C12": {
+        "text": "Fault enumeration: for seeded scripts made of one-commit statements (assignments, function values, callbacks, regexes, try/catch, indirect eval, new Function, built-in mutation, sort, JSON, accessors, closures, switch, for-of) the engine's own TimeLimitError/MemoryLimitError is raised from the step hook at EVERY interpreter step, and RegexTimeoutError at each of the first 60 regex steps; after each fault the observable state must equal the state after some whole number k of statements (k never decreasing), the error class must be the injected limit error, Context._current_vm must be cleared, a health script must pass and later evaluations must equal those of a twin context that executed the first k statements without error. Histories of 14 operation kinds (define/assign/function/throw/throw mid-callback/syntax error/loop forever/recurse forever/set/get/indirect eval/new Function/object mutation/delete) over three contexts with different limits are checked against a dictionary model after every step on every context. Isolation: 36 built-in mutations in context A must leave the structural fingerprint of context B's whole global graph, its probe results and object identities untouched.",
+        "design_ref": "DESIGN.md 3/C12",
+        "level": "fault_enumeration",
+        "note": "Faults are injected at the loop heads where the engine itself raises limit errors (the hook sits before _check_limits), so every injected fault is one the engine could produce there. Fault points are exhaustive per script; scripts and histories are seeded samples.",
+        "technique": "fault injection at every interpreter step through the hook + abstract-model checker over operation histories + twin-context metamorphic oracle + global-graph fingerprint for isolation",
+    },
     "C14": {
         "text": "33 shape templates (straight-line code, loops, if/else, switch by bodies and by case count, try/finally, literals, calls, parameters, constants, globals, locals, captured variables, functions, operator/ternary chains, loops that start late in the function) each with a closed-form result are compiled and run at scales n swept across the operand boundary (255/256), the jump boundary (65535/65536 bytes, placed per template) and beyond. Deciding monitors: closed-form oracle; icontract postconditions on the real Compiler._emit/_patch_jump (bytes written encode the operand/target exactly - masking or wrap is the truncation the property forbids); a decode monitor in the VM step hook (instruction pointer always on an instruction boundary of the running function); only a JSError naming the size, raised before any instruction runs, counts as refusal.",
         "design_ref": "DESIGN.md 3/C14",
